@@ -243,10 +243,14 @@ def obligations(r, tier, seed):
                             others = [a for a in range(N) if a not in idx]
                             k.eq([[H[a, b] for b in others] for a in idx], [[0] * len(others) for _ in idx], "fixed vertex %d: rows decoupled" % i)
                             k.eq([[H[b, a] for b in others] for a in idx], [[0] * len(others) for _ in idx], "fixed vertex %d: columns decoupled" % i)
-                            dxs = [k.real("dxf%d" % c) for c in range(dims[i])]
                             A = [[H[a, b] for b in idx] for a in idx]
-                            k.system_equiv(A, [0] * len(idx), [[(1 if a == b else 0) for b in range(len(idx))] for a in range(len(idx))], [0] * len(idx), dxs,
-                                           "fixed vertex %d: its block forces dx = 0" % i, fixed_idx=list(range(len(idx))))
+                            if k.mode == "sym":
+                                dxs = [k.real("dxf%d" % c) for c in range(dims[i])]
+                                k.system_equiv(A, [0] * len(idx), [[(1 if a == b else 0) for b in range(len(idx))] for a in range(len(idx))], [0] * len(idx), dxs,
+                                               "fixed vertex %d: its block forces dx = 0" % i, fixed_idx=list(range(len(idx))))
+                            else:
+                                import numpy
+                                k.check(numpy.linalg.cond(numpy.array(A, dtype=float)) < 1e8, "fixed vertex %d: its block forces dx = 0 (non-singular)" % i)
                 obs.append(Ob("C03/internal/Graph._calc_chi2_gradient_hessian/fill/%s/fixed=%s/%s" % ("-".join(types), "".join("1" if f else "0" for f in fixed), keyset),
                               fill, tier="internal", scope="shape-bounded", bound="3 vertices %s" % "-".join(types),
                               funcs=["graphslam.graph.Graph._calc_chi2_gradient_hessian", "graphslam.graph.Graph._initialize"]))
